@@ -65,6 +65,7 @@ type Frame struct {
 	ghosts       map[string]Binding // function-level ghost variables (current values)
 	tuples       map[ssa.Value][]Term
 	closureOf    map[*ssa.MakeClosure]*closureVal
+	splits       map[*ssa.BasicBlock][]string
 	ranges       map[*ssa.Range]*rangeState
 	arrViews     map[*ssa.Slice]arrView
 	deferKey     map[*ssa.Defer]string
@@ -224,7 +225,7 @@ func (g *Gen) oblige(kind, name, reach, goal, src string, side bool) {
 		// trivially true goals carry no information; skip (unblock goals are kept: they are the proof rule's instances)
 		return
 	}
-	g.obls = append(g.obls, &Obligation{Name: name, Kind: kind, Func: g.fnName, Prefix: g.sc.Len(), Reach: reach, Goal: goal, Src: src, Side: side})
+	g.obls = append(g.obls, &Obligation{Name: name, Kind: kind, Func: g.fnName, Prefix: g.sc.Len(), Reach: reach, Goal: goal, Src: src, Side: side, Splits: append([]string(nil), g.curSplits...)})
 }
 
 func (fr *Frame) oname(kind, label string) string {
@@ -419,6 +420,25 @@ func (fr *Frame) execBlock(b *ssa.BasicBlock, st0 *State, reach0 string) {
 		st = g.mergeStates(fconds, fsts)
 		reach = g.sc.Define(fmt.Sprintf("%sreach_b%d", fr.prefix, b.Index), Term{or(fconds...), SBool}).S
 	}
+	// case-split context: the incoming edges of the nearest merge (inherited along single-predecessor chains)
+	if fr.splits == nil {
+		fr.splits = map[*ssa.BasicBlock][]string{}
+	}
+	switch {
+	case li != nil:
+		fr.splits[b] = nil
+	case len(fconds) > 1 && len(fconds) <= 6:
+		var cs []string
+		for i, c := range fconds {
+			cs = append(cs, g.sc.Define(fmt.Sprintf("%sedge_b%d_%d", fr.prefix, b.Index, i), Term{c, SBool}).S)
+		}
+		fr.splits[b] = cs
+	case len(fpreds) == 1:
+		fr.splits[b] = fr.splits[fpreds[0]]
+	}
+	prevSplits := g.curSplits
+	g.curSplits = fr.splits[b]
+	defer func() { g.curSplits = prevSplits }()
 	g.sc.Comment("---- %s block %d (%s)", fr.fn.Name(), b.Index, b.Comment)
 
 	// phis
